@@ -218,7 +218,7 @@ func ruleConsumeContained(c *Ctx) {
 				return []st{s}
 			}
 			if cc := callCommon(ins); cc != nil && cc.IsInvoke() && cc.Method.Name() == "Close" {
-				if f, _, ok := fieldLoad(cc.Value); ok && f.Name() == "consumer" {
+				if f, _, ok := fieldLoad(cc.Value); ok && theProgram.baseFieldName(f) == "consumer" {
 					s.Close = 1
 					if s.Stop != 1 {
 						s.Close = 2 // closed while still attached
